@@ -557,5 +557,5 @@ def h_faults(ctx):
 
 
 PARTS = [
-    Part("faults", h_faults, bound={"quick": 2, "thorough": 2}, split_depth=4, budget={"quick": 200, "thorough": 3000}),
+    Part("faults", h_faults, bound={"quick": 2, "thorough": 2}, split_depth=4, budget={"quick": 2000, "thorough": 3000}),
 ]
